@@ -198,6 +198,9 @@ class Env:
         self.objs[name] = obj
         return obj
 
+    def unwatch(self, name):
+        self.objs.pop(name, None)
+
     # ---- builders ----
     def plain_image(self, cond=None, sigma=1.6, bkg=5.0, noise=0.5):
         cond = self.v.get('cond', 'clean') if cond is None else cond
@@ -1029,6 +1032,78 @@ def s_psf_models(E):
     E.call('resize_psf', lambda: resize_psf(p1, 0.1, 0.05))
 
 
+PSF_EVAL_MODELS = ['GriddedPSFModel', 'ImagePSF', 'CircularGaussianPRF', 'CircularGaussianSigmaPRF', 'GaussianPRF',
+                   'CircularGaussianPSF', 'GaussianPSF', 'MoffatPSF', 'AiryDiskPSF', 'make_psf_model']
+XY_KINDS = ['C', 'F', 'view', 'readonly', 'float32', 'int', 'scalar', 'one_d', 'list']
+
+
+@scenario('psf_model_evaluation', data=None, cond=None, mask=None, error=None, model=PSF_EVAL_MODELS,
+          xy=XY_KINDS, pos=['inside', 'edge', 'outside'])
+def s_psf_model_evaluation(E):
+    """Direct evaluation of every public PSF/PRF model on caller-owned coordinate arrays:
+    model(x, y), model.evaluate(x, y, *params) (scalar and array parameters), evaluation of
+    copy()/deepcopy(), render(); x, y, the parameter arrays and the model (data, grid, parameters,
+    constraints) are snapshotted around every call."""
+    import copy as _copy
+    from astropy.modeling.models import Gaussian2D
+    from astropy.nddata import NDData
+    from photutils import psf as P
+    name = E.v['model']
+    yy, xx = np.mgrid[-12:13, -12:13] / 2.0
+    img = np.exp(-(xx ** 2 + yy ** 2) / (2 * 1.6 ** 2))
+    if name == 'GriddedPSFModel':
+        grid = np.array([img * f for f in (1.0, 1.1, 0.9, 1.05)])
+        E.reg('grid_data', grid)
+        nd = E.reg('grid_nddata', NDData(grid, meta={'grid_xypos': [(0, 0), (40, 0), (0, 40), (40, 40)],
+                                                     'oversampling': 2}))
+        model = P.GriddedPSFModel(nd, flux=3.0, x_0=11.3, y_0=9.6)
+    elif name == 'ImagePSF':
+        E.reg('psf_image', img)
+        model = P.ImagePSF(img, flux=3.0, x_0=11.3, y_0=9.6, oversampling=2)
+    elif name == 'make_psf_model':
+        model = P.make_psf_model(Gaussian2D(x_stddev=1.5, y_stddev=1.5), x_name='x_mean', y_name='y_mean',
+                                 flux_name='amplitude')
+    else:
+        kw = {'CircularGaussianPRF': dict(fwhm=3.1), 'CircularGaussianSigmaPRF': dict(sigma=1.4),
+              'GaussianPRF': dict(x_fwhm=3.1, y_fwhm=2.5, theta=30.0), 'CircularGaussianPSF': dict(fwhm=3.1),
+              'GaussianPSF': dict(x_fwhm=3.1, y_fwhm=2.5, theta=30.0), 'MoffatPSF': dict(alpha=3.0, beta=2.5),
+              'AiryDiskPSF': dict(radius=3.0)}[name]
+        model = getattr(P, name)(flux=3.0, x_0=11.3, y_0=9.6, **kw)
+    E.reg('model', model)
+    off = {'inside': 0.0, 'edge': 9.0, 'outside': 60.0}[E.v['pos']]
+    gy, gx = np.mgrid[0:9, 0:11].astype(float)
+    gx = gx + 6.0 + off
+    gy = gy + 5.0 + off
+    k = E.v['xy']
+    if k == 'scalar':
+        x, y = 11.0 + off, 9.5 + off
+    elif k == 'list':
+        x, y = E.reg('x', [10.0 + off, 11.5 + off, 12.0 + off]), E.reg('y', [9.0 + off, 9.5 + off, 10.0 + off])
+    elif k == 'one_d':
+        x, y = E.reg('x', gx[0].copy()), E.reg('y', gy[:, 0][:11].repeat(2)[:11].copy())
+    elif k == 'F':
+        x, y = E.reg('x', np.asfortranarray(gx)), E.reg('y', np.asfortranarray(gy))
+    elif k == 'int':
+        x, y = E.reg('x', gx.astype(int)), E.reg('y', gy.astype(int))
+    else:
+        kind = {'C': 'ndarray'}.get(k, k)
+        x, y = E.wrap('x', gx, kind), E.wrap('y', gy, kind)
+    pvals = [float(v) for v in model.parameters]
+    E.call('call', lambda: model(x, y))
+    if name != 'make_psf_model':
+        E.call('evaluate', lambda: model.evaluate(x, y, *pvals))
+        parr = [E.reg(f'param_{i}', np.array([v])) for i, v in enumerate(pvals)]
+        E.call('evaluate_array_params', lambda: model.evaluate(x, y, *parr))
+    E.call('copy_call', lambda: model.copy()(x, y))
+    E.call('deepcopy_call', lambda: _copy.deepcopy(model)(x, y))
+    out = E.reg('render_out', np.zeros((21, 23)))
+    E.unwatch('render_out')       # the output array of render() is meant to be written
+    E.call('render', lambda: model.render(out=out) if name != 'make_psf_model' else model.render(out=out, coords=np.mgrid[0:21, 0:23][::-1]))
+    coords = E.reg('render_coords', np.mgrid[0:21, 0:23][::-1].astype(float))
+    E.call('render_coords', lambda: model.render(out=np.zeros((21, 23)), coords=coords))
+    E.call('call_again', lambda: model(x, y))
+
+
 # ---------------- datasets ----------------
 @scenario('make_model_image', data=None, cond=None, mask=None, error=None, tbl=['Table', 'QTable', 'units'],
           model=['gauss', 'moffat', 'image'], opt=['shape', 'bbox'])
@@ -1160,7 +1235,7 @@ def run_scenario(name, variant, seed, report, stat=None, count=None):
 WEIGHT = {'isophote': 6, 'PSFPhotometry': 30, 'IterativePSFPhotometry': 14, 'psf_fitting_helpers': 14,
           'extract_stars_epsf': 16, 'SourceCatalog': 24, 'ApertureStats': 30, 'centroid_2dg': 30,
           'centroid_com': 30, 'SegmentationImage': 4, 'psf_models': 12, 'Background2D': 40,
-          'Background2D_blocks': 150}
+          'Background2D_blocks': 150, 'psf_model_evaluation': 90}
 DEFAULT_WEIGHT = 36
 
 
@@ -1216,6 +1291,10 @@ CALLABLE_ASSUMPTIONS = {
     'self.sigma_clip': {'text': 'astropy SigmaClip called with copy=False clips IN PLACE: it writes through its first '
                                 'argument and returns it (or a copy)', 'mut': [0], 'ret': 'alias',
                         'when_kw': ('copy', False)},
+    'self.interpolator': {'text': 'evaluating a scipy RectBivariateSpline returns a new array and writes to nothing '
+                                  '(table row scipy.interpolate.RectBivariateSpline.__call__ is probed)', 'ret': 'fresh'},
+    'interp': {'text': 'GriddedPSFModel._calc_model_values: the cached objects are scipy RectBivariateSpline instances; '
+                       'evaluating one returns a new array and writes to nothing (probed table row)', 'ret': 'fresh'},
     'self.bkg_estimator': {'text': 'background estimators reduce their argument to a new array and write to nothing '
                                    '(dynamic scenario background_estimators)', 'ret': 'fresh'},
     'self.bkgrms_estimator': {'text': 'background RMS estimators reduce their argument to a new array and write to '
@@ -1243,6 +1322,10 @@ TARGETS = [
     ('methods', 'photutils.psf.photometry', 'PSFPhotometry', ['_make_mask'], ['PSFPhotometry'], [r'^PSFPhotometry:call:mask']),
     ('methods', 'photutils.background.background_2d', 'Background2D', ['_calculate_stats'],
      ['Background2D', 'Background2D_blocks'], [r'^Background2D']),
+    ('methods', 'photutils.psf.gridded_models', 'GriddedPSFModel', ['evaluate'],
+     ['psf_model_evaluation', 'psf_models'], [r'^psf_model']),
+    ('methods', 'photutils.psf.image_models', 'ImagePSF', ['evaluate'],
+     ['psf_model_evaluation', 'psf_models'], [r'^psf_model']),
     ('class', 'photutils.profiles.radial_profile', 'RadialProfile', None, ['RadialProfile'], [r'^ProfileBase', r'^RadialProfile:']),
     ('class', 'photutils.profiles.curve_of_growth', 'CurveOfGrowth', None, ['CurveOfGrowth'], [r'^ProfileBase', r'^CurveOfGrowth:']),
     ('class', 'photutils.detection.starfinder', '_StarFinderCatalog', None, ['StarFinder'], [r'^StarFinder.find_stars:data']),
@@ -1250,6 +1333,10 @@ TARGETS = [
     ('class', 'photutils.utils.cutouts', 'CutoutImage', None, ['utils_misc'], [r'^utils_misc:CutoutImage']),
     ('class', 'photutils.aperture.mask', 'ApertureMask', None, ['ApertureMask'], [r'^ApertureMask:']),
 ]
+
+
+# private cache containers of an object (not caller data) for single-method targets
+OWN_CACHES = {'GriddedPSFModel': ('_interpolator',)}
 
 
 def translate_targets(repo):
@@ -1266,7 +1353,7 @@ def translate_targets(repo):
             elif kind == 'class':
                 prot, names, prog = tr.lifecycle(mod, name)
             else:
-                prot, names, prog = tr.methods(mod, name, meths)
+                prot, names, prog = tr.methods(mod, name, meths, own=OWN_CACHES.get(name, ()))
             rec.update(params=prot, names=names, prog=prog, vars=list(tr.vars), size=T.size(prog))
         except T.Untranslatable as e:
             rec['error'] = str(e)
@@ -1422,8 +1509,9 @@ def check_tables(ctx):
     from astropy.modeling.fitting import TRFLSQFitter
     from astropy.modeling.models import Gaussian1D, Gaussian2D
     from astropy.nddata import reshape_as_blocks, block_replicate
+    from scipy.interpolate import RectBivariateSpline
     ns = dict(np=np, u=u, ndi=ndi, extract_array=extract_array, reshape_as_blocks=reshape_as_blocks,
-              block_replicate=block_replicate, PchipInterpolator=PchipInterpolator, pstats=pstats,
+              block_replicate=block_replicate, RectBivariateSpline=RectBivariateSpline, PchipInterpolator=PchipInterpolator, pstats=pstats,
               TRFLSQFitter=TRFLSQFitter, Gaussian1D=Gaussian1D, Gaussian2D=Gaussian2D)
     rows = [(k, r) for k, r in T.EXT.items()] + [('method.' + k, r) for k, r in T.METHODS.items()]
     bad = []
